@@ -27,7 +27,7 @@ import (
 // (cache bookkeeping, logging, batching) are left out, so refactoring them does not change the
 // skeleton.  vlib/checks/c14.py writes the result to Generated/C14_Skeleton.lean and Tie/C14.lean
 // compares it with the skeleton the model was written against.
-var vRelevant = regexp.MustCompile(`\b(pendingResponses|numPredicted|numPredict|FindStop|TruncateStop|ContainsStopSuffix|IncompleteUnicode|flushPending|removeSequence|TokenIsEog|SpecialEOS|doneReason|responses|sequence|piece|joined|ValidString)\b`)
+var vRelevant = regexp.MustCompile(`\b(pendingResponses|numPredicted|numPredict|FindStop|TruncateStop|ContainsStopSuffix|IncompleteUnicode|flushPending|removeSequence|TokenIsEog|SpecialEOS|doneReason|responses|sequence|piece|joined|ValidString|CompletionResponse|DoneReason|quit|numDecoded)\b`)
 
 type vSkel struct {
 	fset *token.FileSet
@@ -157,7 +157,8 @@ func TestVerifC14Extract(t *testing.T) {
 		t.Fatal(err)
 	}
 	defer f.Close()
-	funcs := []string{"processBatch", "removeSequence", "flushPending"}
+	// completion: the HTTP handler that turns the Sequence's chunks and outcome into the JSON lines the client reads
+	funcs := []string{"processBatch", "removeSequence", "flushPending", "completion"}
 	for _, r := range []string{"ollamarunner", "llamarunner"} {
 		res, err := vExtractFile(filepath.Join("..", r, "runner.go"), funcs)
 		if err != nil {
